@@ -38,7 +38,8 @@ type gInst struct {
 	Parent    *gInst
 	ParentDep bool
 	ParentEnt *gEnt
-	XCFrom    *gEnt // the deferred call entry (of Parent) that passes XC: '{{.EXIT_CODE}}' to this instance
+	M         string // (wildcard task) what the '*' stood for in the call that created this instance
+	XCFrom    *gEnt  // the deferred call entry (of Parent) that passes XC: '{{.EXIT_CODE}}' to this instance
 	// static result
 	resDone bool
 	resOK   bool
@@ -80,6 +81,9 @@ func (m *gModel) build(budget int) bool {
 			return false
 		}
 		in.Root = true
+		if t.Wild {
+			in.M = "r"
+		}
 		m.roots = append(m.roots, in)
 	}
 	return !m.over
@@ -269,7 +273,11 @@ func (m *gModel) refInst(from *gInst, r gRef, it refItem, edge string) *gInst {
 	case vItem:
 		V, hasV = it.item, true
 	}
-	return m.inst(t, from.P+"/"+edge, V, hasV)
+	in := m.inst(t, from.P+"/"+edge, V, hasV)
+	if in != nil && t.Wild {
+		in.M = r.WLit
+	}
+	return in
 }
 
 // ---------------------------------------------------------------------------------------------------
@@ -853,12 +861,21 @@ func (c *gChecker) entryEnabled(in *gInst, e *gEnt, t int, why string) bool {
 		// A task whose entries before a task-call entry have all completed does enter that call, and the
 		// call returns only when the callee's (possibly shared) execution is over: if the callee still
 		// produces events after one of the caller's deferred entries has started, the call returned early.
+		uncertain := false
 		for _, x := range in.Ents {
 			if x.Defer {
 				continue
 			}
 			if m.entDone(in, x) < t {
+				if x.Kind == gProbe && x.Fail > 0 && c.cancelPossible {
+					// a failing command that is forgiven leaves no END line: whether it failed (and the task went
+					// on) or was cut short by a cancellation (and the task stopped there) cannot be told apart
+					uncertain = true
+				}
 				continue
+			}
+			if uncertain {
+				break
 			}
 			if x.Kind == gCall && x.Callee.Shared && !x.Callee.Skip && x.Callee.Guard != "requires" && x.Callee.Guard != "enum" {
 				if le := c.lastEvent(x.Callee); le > t {
@@ -1054,6 +1071,9 @@ func (m *gModel) check(evs []pEv, conc int, finished bool, errNil bool, errClass
 				if got, has := ev.Extra["X"]; has {
 					c.checkExitCode(in, e, got, ev.Seq)
 				}
+			}
+			if got, has := ev.Extra["M"]; has && got != in.M {
+				c.add("C02", "callee_var_mismatch|wildcard_match", "instance %s of a wildcard task sees MATCH=%q, it was called with %q", in.P, got, in.M)
 			}
 			if got, has := ev.Extra["XC"]; has {
 				// a task called from a deferred entry with XC: '{{.EXIT_CODE}}' sees the exit code its caller's
